@@ -7,7 +7,7 @@
    loops' fuel suffices (termination of the LR automaton); a case where the model runs out of fuel is a
    correspondence failure of corr_parse, so it cannot go unnoticed. *)
 From AidlV Require Import Spec.Master Proofs.Master Proofs.Totality Proofs.ParserState Model.ParserState Model.LrDriver
-  Proofs.Typing Proofs.DriverSafe Proofs.ArityOk.
+  Proofs.Typing Proofs.DriverSafe Proofs.ArityOk Proofs.LexProgress.
 
 (* validation of grammar-shaped trees cannot panic (index [0], unreachable!, unwrap on None) *)
 Theorem C01_validation_total : forall defined a ds0,
@@ -26,6 +26,13 @@ Theorem C01_parsed_tree_validates : forall cx id fr a defined ds0,
   add_content cx id = Added fr -> fr_ast fr = Some a -> exists r, validate_file defined a ds0 = Ok r.
 Proof. exact parsed_tree_validates. Qed.
 Print Assumptions C01_parsed_tree_validates.
+
+(* the lexer cannot loop: every token it hands out is non-empty (every non-skipped regex of the regenerated table is
+   non-nullable: computed), so the text left after a token is strictly shorter *)
+Theorem C01_lexer_makes_progress : forall fuel s off a idx text e rest,
+  lex_next gen_lex_table fuel s off = LTok a idx text e rest -> text <> [] /\ (length rest < length s)%nat.
+Proof. exact lex_next_progress. Qed.
+Print Assumptions C01_lexer_makes_progress.
 
 (* the returned collection has one result per held file, tagged with that file's id *)
 Theorem C01_ids : forall files r, validate files = Ok r -> map fr_id r = map fr_id files.
